@@ -4,6 +4,7 @@
    Built on Proofs/RE_Small.v (dstep), Proofs/RE_Inv.v (reachable-state invariant), Proofs/RE_Shape.v. *)
 From Coq Require Import List String ZArith Bool Arith Lia.
 From BV Require Import Engine.RE Engine.REInst Proofs.RE_Small Proofs.RE_Inv Proofs.RE_Ctl Proofs.RE_Shape.
+From BV Require Proofs.RE_Exit Proofs.RE_DocsCor Proofs.RE_DocsInv.
 Import ListNotations.
 (* file-local implicit arguments for the model's functions (the model file itself is untouched) *)
 Local Arguments upd {P D}.
@@ -760,6 +761,141 @@ Proof.
   destruct K as [[K1 K2]|K]; [|right; apply given_app_l; exact K].
   specialize (IH s1 Hc2 K1 K2). rewrite Er in IH. cbn [fst snd] in IH.
   destruct (IH Hb2) as [IH'|IH']; [left; exact IH' | right; apply given_app_r; exact IH'].
+Qed.
+
+
+(* ------------------------------------------------------------------ the whole continuation *)
+Lemma run_phase pl0 evs : forall w (s : st) oacc,
+  Phase pl0 w s oacc -> forallb cont_ev evs = true -> nb (snd (run presume plan_of dev s evs)) ->
+  Phase pl0 (w && forallb inert evs) (fst (run presume plan_of dev s evs)) (oacc ++ snd (run presume plan_of dev s evs)).
+Proof.
+  induction evs as [|e evs IH]; intros w s oacc Ph Hc Hb; cbn [run forallb fst snd] in *.
+  - rewrite andb_true_r, app_nil_r. exact Ph.
+  - apply andb_true_iff in Hc. destruct Hc as [Hc1 Hc2].
+    destruct (step presume plan_of dev s e) as [s1 o1] eqn:Es.
+    destruct (run presume plan_of dev s1 evs) as [s2 o2] eqn:Er. cbn [fst snd] in *.
+    apply nb_app in Hb. destruct Hb as [Hb1 Hb2].
+    pose proof (phase_step pl0 w s oacc e s1 o1 Ph Hc1 Es Hb1) as Ph1.
+    specialize (IH _ _ _ Ph1 Hc2). rewrite Er in IH. cbn [fst snd] in IH. specialize (IH Hb2).
+    rewrite app_assoc, andb_assoc. exact IH.
+Qed.
+
+Lemma run_interrupted evs : forall (s : st),
+  forallb cont_ev evs = true -> interrupted s = true -> interrupted (fst (run presume plan_of dev s evs)) = true.
+Proof.
+  induction evs as [|e evs IH]; intros s Hc Hi; cbn [run forallb fst] in *; [exact Hi|].
+  apply andb_true_iff in Hc. destruct Hc as [Hc1 Hc2].
+  destruct (step presume plan_of dev s e) as [s1 o1] eqn:Es.
+  specialize (IH s1 Hc2). destruct (run presume plan_of dev s1 evs) as [s2 o2]. cbn [fst] in *. apply IH.
+  eapply RE_Exit.interrupted_sticky; [|exact Es|exact Hi].
+  destruct e as [a|a| | |defer|rs| | |sid pre post|sid|sid ok| |]; try discriminate Hc1; exact I.
+Qed.
+
+Lemma run_main_err evs : forall (s : st),
+  forallb cont_ev evs = true -> main_err (fst (run presume plan_of dev s evs)) = main_err s.
+Proof.
+  induction evs as [|e evs IH]; intros s Hc; cbn [run forallb fst] in *; [reflexivity|].
+  apply andb_true_iff in Hc. destruct Hc as [Hc1 Hc2].
+  destruct (step presume plan_of dev s e) as [s1 o1] eqn:Es.
+  specialize (IH s1 Hc2). destruct (run presume plan_of dev s1 evs) as [s2 o2]. cbn [fst] in *. rewrite IH.
+  destruct e as [a|a| | |defer|rs| | |sid pre post|sid|sid ok| |]; try discriminate Hc1.
+  2:{ cbn [step] in Es. apply task_step_aux in Es. unfold aux in Es. inv Es. reflexivity. }
+  all: assert (Hi : inert _ = true) by exact Hc1; destruct (step_inert _ _ _ _ Hi Es) as (_ & _ & _ & _ & _ & _ & _ & _ & _ & _ & _ & A); exact A.
+Qed.
+
+Definition raises (r : tres) : bool := match r with TRaise ECancelled => false | TRaise _ => true | TReturn _ => false end.
+Definition is_task (e : event) : bool := match e with EvTask => true | _ => false end.
+
+Lemma no_bad1 (l : list obs) : nb l -> ~ In (OBad 1) l.
+Proof. intros H Hin. unfold nb in H. rewrite Forall_forall in H. exact (H _ Hin). Qed.
+
+(* THE THEOREM *)
+Theorem failed_pause_end_to_end d paus stag rec evs1 req evs2 :
+  let s0 := init d paus stag rec in
+  let s1 := fst (run presume plan_of dev s0 evs1) in
+  let o1 := snd (run presume plan_of dev s0 evs1) in
+  let s3 := fst (run presume plan_of dev s1 (req :: evs2)) in
+  let o := snd (run presume plan_of dev s1 (req :: evs2)) in
+  (req = EvReqPause false \/ exists sid pre post, req = EvReqSuspend sid pre post) ->
+  state s1 = Running -> cache s1 = None -> exc_slot s1 = None ->
+  (pc s1 = PcSleep0 \/ exists k, pc s1 = PcCmd k) ->
+  forallb cont_ev evs2 = true ->
+  nb (o1 ++ o) ->
+  (* never paused *)
+  Forall np o /\
+  (* the first thing any plan is handed after the request is FailedPause, before any message is processed; it goes to
+     the plan on top of the stack when that is a running plan *)
+  match fin o with
+  | None => existsb is_task evs2 = true -> nolive_top (plans s1)
+  | Some x => exists pid, x = OPlanIn pid (Throw EFailedPause) /\ toppid (plans s1) pid
+  end /\
+  (* when the task has finished *)
+  (forall r, pc s3 = PcDone r ->
+     state s3 = Idle /\ bundlers s3 = [] /\ interrupted s3 = true /\
+     (forall pid p, In (FUser pid p true) (plans s1) -> given pid o) /\
+     (forall u, In (DStart u) (RE_DocsCor.docs_of (o1 ++ o)) ->
+                exists xs rs n, In (DStop u xs rs n) (RE_DocsCor.docs_of (o1 ++ o))) /\
+     (forall a, (a = AResume \/ exists pid, a = ACall pid) -> main_err s1 = None ->
+        exists out, snd (step presume plan_of dev s3 (EvMainDone a)) = [OOut out Idle (deferred s3) (resumable s3)] /\
+                    (raises r = false -> out = OutInterrupted) /\
+                    (forall e, r = TRaise e -> e <> ECancelled -> out = OutRaise e))).
+Proof.
+  intros s0 s1 o1 s3 o Hreq Hs Hc He Hpc Hcont Hnb.
+  apply nb_app in Hnb. destruct Hnb as [Hnb1 Hnb].
+  pose proof (RE_Inv.reach_Inv P presume plan_of D dev d paus stag rec evs1 (no_bad1 _ Hnb1)) as HI.
+  fold s0 in HI. fold s1 in HI.
+  pose proof (reachable_bintr_ok P presume plan_of D dev d paus stag rec evs1) as Hbo. fold s0 in Hbo. fold s1 in Hbo.
+  subst s3 o. cbn [run] in *.
+  destruct (step presume plan_of dev s1 req) as [s2 oq] eqn:Eq.
+  destruct (run presume plan_of dev s2 evs2) as [s3 o2] eqn:Er. cbn [fst snd] in *.
+  apply nb_app in Hnb. destruct Hnb as [Hnbq Hnb2].
+  destruct (failed_request s1 req s2 oq Hreq Hs Hc He Hbo Hpc Eq) as (Nq & Fq & Q1 & Q2 & Q3 & Q4 & Q5 & Q6 & Q7 & Q8 & Q9).
+  (* the state after the request *)
+  assert (HA : AB0 s2).
+  { destruct HI as (_ & _ & _ & I4 & I5 & _). unfold RE_Inv.stack_a, RE_Inv.aligned in I4. unfold AB0, pre_fall, al.
+    rewrite Q1, Q2, Q3, Q6. split; [|split; [exact Q4|]].
+    - destruct Hpc as [Hp|[k Hp]]; rewrite Hp in *; [left; split; [reflexivity | apply I4] | right; exists k; split; [reflexivity | exact I4]].
+    - split; [exact Q5|]. split; [destruct Hpc as [Hp|[k Hp]]; rewrite Hp in I5; exact I5 | exact Q9]. }
+  assert (Ph : Phase (plans s1) true s2 oq).
+  { split; [exact Nq|]. left. split; [reflexivity|]. split; [exact HA|]. split; [exact Q2 | exact Fq]. }
+  pose proof (run_phase (plans s1) evs2 true s2 oq Ph Hcont) as Ph2. rewrite Er in Ph2. cbn [fst snd] in Ph2. specialize (Ph2 Hnb2).
+  destruct Ph2 as [N2 Ph2].
+  split; [exact N2|]. split.
+  - destruct Ph2 as [(Hw & _ & _ & F)|[(_ & (_ & _ & E3) & F)|(_ & pid & F & T)]]; rewrite F.
+    + intros Ht. exfalso. cbn [andb] in Hw.
+      assert (K : forall l, forallb inert l = true -> existsb is_task l = false).
+      { induction l as [|x l IH]; cbn; [reflexivity|]. intros Hx. apply andb_true_iff in Hx. destruct Hx as [Hx1 Hx2].
+        rewrite (IH Hx2), orb_false_r. destruct x; try discriminate Hx1; reflexivity. }
+      rewrite (K _ Hw) in Ht. discriminate Ht.
+    + intros _. exact E3.
+    + exists pid. auto.
+  - intros r Hdone.
+    (* the whole schedule, from the initial state *)
+    pose proof (RE_Small.run_app P presume plan_of D dev s0 evs1 (req :: evs2)) as Hw. cbv zeta in Hw.
+    destruct (run presume plan_of dev s0 evs1) as [s1' o1'] eqn:E1. subst s1 o1. cbn [fst snd] in *.
+    cbn [run] in Hw. rewrite Eq, Er in Hw.
+    assert (Hnbw : ~ In (OBad 1) (snd (run presume plan_of dev s0 (evs1 ++ req :: evs2)))).
+    { rewrite Hw. cbn [snd]. apply no_bad1. apply nb_app. split; [exact Hnb1 | apply nb_app; split; assumption]. }
+    pose proof (RE_Inv.done_is_idle P presume plan_of D dev d paus stag rec (evs1 ++ req :: evs2) r) as Hd.
+    fold s0 in Hd. cbv zeta in Hd. specialize (Hd Hnbw). rewrite Hw in Hd. cbn [fst] in Hd. destruct (Hd Hdone) as [Hidle Hbn].
+    assert (Hint : interrupted s3 = true).
+    { pose proof (run_interrupted evs2 s2 Hcont Q7) as K. rewrite Er in K. exact K. }
+    split; [exact Hidle|]. split; [exact Hbn|]. split; [exact Hint|]. split; [|split].
+    + intros pid p Hin.
+      assert (HL : live pid s2) by (exists p; rewrite Q2; exact Hin).
+      assert (Htp : taskpc (pc s2)) by (rewrite Q1; destruct Hpc as [->|[k ->]]; exact I).
+      pose proof (live_run pid evs2 s2 Hcont HL Htp) as K. rewrite Er in K. cbn [fst snd] in K.
+      destruct (K Hnb2) as [[_ K2]|K2]; [rewrite Hdone in K2; destruct K2|]. apply given_app_r. exact K2.
+    + intros u Hu.
+      pose proof (RE_DocsInv.done_all_stopped P presume plan_of D dev d paus stag rec (evs1 ++ req :: evs2) r) as K.
+      fold s0 in K. cbv zeta in K. specialize (K Hnbw). rewrite Hw in K. cbn [fst snd] in K. exact (K Hdone u Hu).
+    + intros a Ha Hme.
+      assert (Hme3 : main_err s3 = None).
+      { pose proof (run_main_err evs2 s2 Hcont) as K. rewrite Er in K. cbn [fst] in K. congruence. }
+      rewrite (RE_Exit.outcome_of_call P presume plan_of D dev s3 a Ha Hme3). rewrite Hdone, Hint, Hidle.
+      eexists. split; [reflexivity|]. split.
+      * intros Hr. destruct r as [v|e]; [reflexivity|]. destruct e; try discriminate Hr; reflexivity.
+      * intros e -> Hne. destruct e; try reflexivity. contradiction.
 Qed.
 
 End C10.
